@@ -80,23 +80,13 @@ def parseDetMap (s : String) : Option (List (Nat × Nat)) :=
         | _, _ => none
       | _ => none)
 
-/-- `SimpleCalo::filters()/selection()`: detectors[volume_ids[i]] = i (a later duplicate label
-    overwrites), nonzero filter on, selection {energy_deposition, pre volume} -/
-def caloDets (vols : List Nat) : List (Nat × Nat) :=
-  let pairs := vols.zipIdx
-  -- std::map semantics: last assignment wins, keys sorted
-  let keys := (vols.foldl (fun acc v => if acc.contains v then acc else acc ++ [v]) [])
-  let sorted := keys.mergeSort (· ≤ ·)
-  sorted.map fun v => (v, ((pairs.filter (fun p => p.1 == v)).map (·.2)).getLastD 0)
-
 def parseCb (nvol : Nat) (s : String) : Option CbSpec :=
   match s.splitOn ":" with
   | ["calo", vs] =>
     match allSome ((vs.splitOn ",").map parseDec) with
     | some vols =>
       if vols.isEmpty || vols.any (· ≥ nvol) then none else
-      some ⟨.calo vols.length,
-            ⟨{ edep := true, pre := { volume := true } }, caloDets vols, true⟩⟩
+      some ⟨.calo vols.length, caloIface vols⟩
     | none => none
   | [k, m, dm, nz] =>
     if k != "raw" && k != "det" then none else
